@@ -8,6 +8,7 @@ import (
 	"fmt"
 	"math/rand"
 	"net"
+	"strings"
 	"time"
 
 	"github.com/hashicorp/serf/coordinate"
@@ -77,6 +78,8 @@ type wgen struct {
 	idx    uint64
 	mix    string
 	vipsOn bool
+	// caseMix: names are re-spelled with other letter case now and then (every second history)
+	caseMix bool
 	// secretSeq numbers the secret ids generated so far
 	secretSeq int
 }
@@ -129,6 +132,19 @@ func (g *wgen) existingNodes(peer string) []string {
 		out = append(out, n.Node)
 	}
 	return out
+}
+
+// respell: now and then the same name arrives spelled with other letter case (the tables key nodes,
+// services and checks on the lower-cased name, so "N1" and "n1" are one row whose stored spelling
+// is whatever was written last).
+func (g *wgen) respell(s string) string {
+	if s == "" || !g.caseMix || g.rng.Intn(7) > 0 {
+		return s
+	}
+	if g.chance(2) {
+		return strings.ToUpper(s)
+	}
+	return strings.ToUpper(s[:1]) + s[1:]
 }
 
 func (g *wgen) nodeName() string {
@@ -239,6 +255,7 @@ func (g *wgen) register() wcmd {
 	if g.chance(2) && peer == "" {
 		node = g.nodeName()
 	}
+	node = g.respell(node)
 	req := &structs.RegisterRequest{Datacenter: "dc1", Node: node, Address: "10.0.0." + fmt.Sprint(1+g.rng.Intn(2)), PeerName: peer}
 	req.ID = types.NodeID(g.pick(uni.nodeIDs))
 	if g.rng.Intn(3) > 0 {
@@ -256,6 +273,8 @@ func (g *wgen) register() wcmd {
 	desc := fmt.Sprintf("register node=%s peer=%q id=%.8s", node, peer, req.ID)
 	if g.rng.Intn(3) > 0 {
 		req.Service = g.nodeService(g.pick(uni.svcIDs))
+		req.Service.ID = g.respell(req.Service.ID)
+		req.Service.Service = g.respell(req.Service.Service)
 		req.Service.PeerName = peer
 		desc += fmt.Sprintf(" svc=%s/%s kind=%q tags=%v", req.Service.ID, req.Service.Service, req.Service.Kind, req.Service.Tags)
 	}
@@ -268,6 +287,8 @@ func (g *wgen) register() wcmd {
 		if g.chance(20) {
 			hc.Node = g.pick(uni.nodes)
 		}
+		hc.CheckID = types.CheckID(g.respell(string(hc.CheckID)))
+		hc.ServiceID = g.respell(hc.ServiceID)
 		req.Checks = append(req.Checks, hc)
 		desc += fmt.Sprintf(" check=%s(%s,svc=%q)", hc.CheckID, hc.Status, hc.ServiceID)
 	}
@@ -279,12 +300,12 @@ func (g *wgen) deregister() wcmd {
 	if g.chance(8) {
 		peer = g.pick(uni.peers)
 	}
-	req := &structs.DeregisterRequest{Datacenter: "dc1", Node: g.nodeName(), PeerName: peer}
+	req := &structs.DeregisterRequest{Datacenter: "dc1", Node: g.respell(g.nodeName()), PeerName: peer}
 	switch g.rng.Intn(3) {
 	case 0:
-		req.ServiceID = g.pick(uni.svcIDs)
+		req.ServiceID = g.respell(g.pick(uni.svcIDs))
 	case 1:
-		req.CheckID = types.CheckID(g.pick(uni.checkIDs))
+		req.CheckID = types.CheckID(g.respell(g.pick(uni.checkIDs)))
 	}
 	return g.mk("deregister", fmt.Sprintf("deregister node=%s svc=%q check=%q peer=%q", req.Node, req.ServiceID, req.CheckID, peer),
 		mustEncode(structs.DeregisterRequestType, req))
@@ -374,7 +395,7 @@ func (g *wgen) kvs() wcmd {
 }
 
 func (g *wgen) sessionCreate() wcmd {
-	s := structs.Session{ID: g.pick(uni.sessIDs), Node: g.nodeName(), Name: g.pick(uni.sessNames), Behavior: structs.SessionKeysRelease}
+	s := structs.Session{ID: g.pick(uni.sessIDs), Node: g.respell(g.nodeName()), Name: g.pick(uni.sessNames), Behavior: structs.SessionKeysRelease}
 	live := g.liveSessions()
 	for tries := 0; tries < 4; tries++ {
 		isLive := false
@@ -664,8 +685,59 @@ func (g *wgen) aclMethodOrRule() wcmd {
 
 func (g *wgen) configEntry() wcmd {
 	var e structs.ConfigEntry
+	statusOK := false // kinds a controller writes back with a reconciliation status
 	svc := g.pick([]string{"web", "api", "db", "ext"})
-	switch g.rng.Intn(13) {
+	switch g.rng.Intn(19) {
+	case 13:
+		gw := &structs.APIGatewayConfigEntry{Kind: structs.APIGateway, Name: "agw",
+			Listeners: []structs.APIGatewayListener{{Name: "l1", Port: 8443, Protocol: structs.ListenerProtocolHTTP}}}
+		if g.chance(2) {
+			gw.Listeners = append(gw.Listeners, structs.APIGatewayListener{Name: "l2", Port: 9000, Protocol: structs.ListenerProtocolTCP})
+		}
+		if g.chance(3) {
+			gw.Listeners[0].TLS.Certificates = []structs.ResourceReference{{Kind: g.pick([]string{structs.InlineCertificate, structs.FileSystemCertificate}), Name: "cert1"}}
+		}
+		statusOK = true
+		e = gw
+	case 14:
+		b := &structs.BoundAPIGatewayConfigEntry{Kind: structs.BoundAPIGateway, Name: "agw",
+			Listeners: []structs.BoundAPIGatewayListener{{Name: "l1"}}}
+		if g.chance(2) {
+			b.Listeners[0].Routes = []structs.ResourceReference{{Kind: structs.HTTPRoute, Name: "hr1"}}
+			b.Services = structs.ServiceRouteReferences{structs.NewServiceName(svc, nil): []structs.ResourceReference{{Kind: structs.HTTPRoute, Name: "hr1"}}}
+		}
+		if g.chance(3) {
+			b.Listeners[0].Certificates = []structs.ResourceReference{{Kind: structs.InlineCertificate, Name: "cert1"}}
+		}
+		e = b
+	case 15:
+		hr := &structs.HTTPRouteConfigEntry{Kind: structs.HTTPRoute, Name: "hr1",
+			Parents: []structs.ResourceReference{{Kind: structs.APIGateway, Name: "agw", SectionName: g.pick([]string{"", "l1"})}},
+			Rules:   []structs.HTTPRouteRule{{Services: []structs.HTTPService{{Name: svc, Weight: 1}}}}}
+		if g.chance(2) {
+			hr.Hostnames = []string{"example.com"}
+		}
+		if g.chance(3) {
+			hr.Rules = append(hr.Rules, structs.HTTPRouteRule{
+				Matches:  []structs.HTTPMatch{{Path: structs.HTTPPathMatch{Match: structs.HTTPPathMatchPrefix, Value: "/v2"}}},
+				Services: []structs.HTTPService{{Name: g.pick([]string{"api", "db"}), Weight: 2}}})
+		}
+		statusOK = true
+		e = hr
+	case 16:
+		tr := &structs.TCPRouteConfigEntry{Kind: structs.TCPRoute, Name: "tr1",
+			Parents:  []structs.ResourceReference{{Kind: structs.APIGateway, Name: "agw", SectionName: "l2"}},
+			Services: []structs.TCPService{{Name: svc}}}
+		statusOK = true
+		e = tr
+	case 17:
+		e = &structs.InlineCertificateConfigEntry{Kind: structs.InlineCertificate, Name: "cert1", Certificate: validCertificate, PrivateKey: validPrivateKey}
+		if g.chance(3) {
+			e.(*structs.InlineCertificateConfigEntry).Meta = map[string]string{"owner": g.pick([]string{"a", "b"})}
+		}
+	case 18:
+		e = &structs.FileSystemCertificateConfigEntry{Kind: structs.FileSystemCertificate, Name: g.pick([]string{"cert1", "cert2"}),
+			Certificate: "/etc/cert.pem", PrivateKey: g.pick([]string{"/etc/key.pem", "/etc/key2.pem"})}
 	case 0:
 		e = &structs.ServiceConfigEntry{Kind: structs.ServiceDefaults, Name: svc, Protocol: g.pick([]string{"tcp", "http", "http", "grpc"})}
 	case 1:
@@ -776,7 +848,14 @@ func (g *wgen) configEntry() wcmd {
 		op = structs.ConfigEntryDeleteCAS
 		e.GetRaftIndex().ModifyIndex = g.casIndex(curIdx)
 	}
-	if invalid != "" && (op == structs.ConfigEntryUpsert || op == structs.ConfigEntryUpsertCAS) {
+	if ce, ok := e.(structs.ControlledConfigEntry); ok && statusOK && cur != nil && g.chance(3) {
+		// the gateway controller writes the entry back with its status, guarded by the index it read
+		op = structs.ConfigEntryUpsertWithStatusCAS
+		e.GetRaftIndex().ModifyIndex = g.casIndex(curIdx)
+		ce.SetStatus(structs.Status{Conditions: []structs.Condition{{Type: "Accepted", Status: g.pick([]string{"True", "False"}), Reason: "Accepted",
+			Message: "route is valid", LastTransitionTime: timePtr(baseTime.Add(time.Duration(g.idx) * time.Second))}}})
+	}
+	if invalid != "" && op != structs.ConfigEntryDelete && op != structs.ConfigEntryDeleteCAS {
 		op = structs.ConfigEntryDelete
 	}
 	return g.mk("config:"+e.GetKind()+":"+string(op), fmt.Sprintf("config-entry %s %s/%s index=%d", op, e.GetKind(), e.GetName(), e.GetRaftIndex().ModifyIndex),
